@@ -338,3 +338,59 @@ def agg_field(agg, name):
     if name in agg[4]:
         return agg[3][agg[4].index(name)]
     return None
+
+
+def bypass_guards(body, bb):
+    """Branching blocks on which the execution of bb is (transitively) control-dependent, over normal paths: g is one if bb post-dominates
+    a successor of g but not g itself.  These are exactly the conditions under which bb runs."""
+    pd = body.postdominators()
+    can = body._can_exit
+
+    def direct(x):
+        res = []
+        for g in body.reachable_blocks():
+            if g not in can or not body.switch_info(g):
+                continue
+            ss = [s_ for s_ in body.succs(g) if s_ in can]
+            if len(ss) < 2:
+                continue
+            if any(s_ == x or x in pd[s_] for s_ in ss) and not (g != x and x in pd[g]):
+                res.append(g)
+        return res
+    seen, todo = [], [bb]
+    while todo:
+        x = todo.pop()
+        for g in direct(x):
+            if g not in seen and g != bb:
+                seen.append(g)
+                todo.append(g)
+    return sorted(seen)
+
+
+def skips_only_zero(body, guard_bb, bb, delta, unsigned):
+    """The branch at guard_bb lets control bypass bb only when `delta` is zero (so that skipping `x += delta` changes nothing):
+    `delta != 0` / `delta > 0` (unsigned) / `0 < delta` (unsigned) with bb on the true edge, or `delta == 0` with bb on the false edge.
+    For floats only != / == are accepted (`> 0.0` also skips negative values and NaN)."""
+    be = body.bool_edges(guard_bb)
+    if not be:
+        return False
+    cond, t_edge, f_edge = be
+    if not (isinstance(cond, tuple) and cond and cond[0] == "binop"):
+        return False
+    op, a, b_ = cond[1], peel(cond[2]), peel(cond[3])
+    d = peel(delta)
+    if a == d and const_int(b_) == 0:
+        pass
+    elif b_ == d and const_int(a) == 0 and op in ("Lt", "Ne", "Eq"):
+        op = {"Lt": "Gt"}.get(op, op)
+    else:
+        return False
+    if op == "Ne" or (op == "Gt" and unsigned):
+        skip_edge = f_edge
+    elif op == "Eq":
+        skip_edge = t_edge
+    else:
+        return False
+    other = t_edge if skip_edge == f_edge else f_edge
+    # bb is reached only over the non-zero edge
+    return bb not in body.reach(skip_edge, avoid_blocks=[guard_bb]) and (bb == other or bb in body.reach(other, avoid_blocks=[guard_bb]))
